@@ -50,9 +50,9 @@ Definition check (c : case) : outcome :=
          | Some w => reps_agree w obs | None => false end)
         v
         (fun v => explain
-           [ (negb (ok_coloc v), [(4%N, trig_coloc_000 s)]);
+           [ (negb (ok_coloc v), []);
              (negb (ok_cap v), [(0%N, trig_balance_cap limit s (phases_of colls dts) (init_world s) tr)]);
-             (negb (ok_pres v), [(5%N, trig_rp_xy s)]);
+             (negb (ok_pres v), [(2%N, trig_rp_xy s)]);
              (negb (ok_repair v), []) ])
         (match tr with [] => false | _ => true end)
   | REvac this skip evs =>
@@ -60,9 +60,9 @@ Definition check (c : case) : outcome :=
       let v := prop_trace s (init_world s) tr in
       outcome_of (evac_accepts s this skip evs) v
         (fun v => explain
-           [ (negb (ok_coloc v), [(4%N, trig_coloc_000 s)]);
+           [ (negb (ok_coloc v), []);
              (negb (ok_cap v), [(1%N, trig_evac_cap s this)]);
-             (negb (ok_pres v), [(5%N, trig_rp_xy s)]);
+             (negb (ok_pres v), [(2%N, trig_rp_xy s)]);
              (negb (ok_repair v), []) ])
         (match tr with [] => false | _ => true end)
   | RFix retry evs =>
@@ -70,10 +70,10 @@ Definition check (c : case) : outcome :=
       let v := prop_trace s (init_world s) tr in
       outcome_of (fix_accepts s retry evs) v
         (fun v => explain
-           [ (negb (ok_coloc v), [(3%N, trig_fix_retry retry)]);
-             (negb (ok_cap v), [(2%N, trig_fix_cap s retry)]);
+           [ (negb (ok_coloc v), []);
+             (negb (ok_cap v), []);
              (negb (ok_pres v), []);
-             (negb (ok_repair v), [(3%N, trig_fix_retry retry)]) ])
+             (negb (ok_repair v), []) ])
         (match tr with [] => false | _ => true end)
   | RGoodMove b reps src tgt impl =>
       outcome_of (Bool.eqb (is_good_move (rp_of_byte b) reps src tgt) impl) v4_true (fun _ => None) impl
